@@ -151,3 +151,56 @@ package meta
 //@   ensures [enums] old(derived.enums) == nil ? derived.enums === base.enums : derived.enums === old(derived.enums)
 //@   ensures [path] derived.path == ((base.path != "" && old(derived.path) == "") ? base.path : old(derived.path))
 //@   ensures [fraction] derived.fractionDigits == (old(derived.fractionDigits) == 0 ? base.fractionDigits : old(derived.fractionDigits))
+
+// ---- C14 (loading cannot crash or hang in an if-feature expression) ---------------------------------------------
+// the operator-stack evaluator of if-feature expressions: for every expression text it stays inside the text, every
+// token step makes progress, the recursion and both loops terminate, and popping an empty stack is recorded as a
+// syntax error, never a crash. (That the value it computes is the RFC 7950 precedence value is NOT decided: C11.)
+//@ macro wfEval(y *ifFeatureEval) bool = y != nil && 0 <= y.pos && y.pos <= len(y.expr)
+//@ func (y *ifFeatureEval) eatws()
+//@   mode int
+//@   property C14
+//@   requires wfEval(y)
+//@   assigns y.pos
+//@   loop 1 invariant wfEval(y) && y.pos >= old(y.pos)
+//@   loop 1 decreases len(y.expr) - y.pos
+//@   ensures wfEval(y) && y.pos >= old(y.pos)
+//@   ensures y.pos == len(y.expr) || y.expr[y.pos] != ' '
+//@ func (y *ifFeatureEval) next() string
+//@   mode int
+//@   property C14
+//@   requires wfEval(y)
+//@   assigns y.pos
+//@   loop 1 invariant wfEval(y) && start <= y.pos && start >= old(y.pos)
+//@   loop 1 invariant y.pos == start ==> (y.pos == len(y.expr) || y.expr[y.pos] != ' ')
+//@   loop 1 decreases len(y.expr) - y.pos
+//@   ensures wfEval(y) && y.pos >= old(y.pos)
+//@   ensures [progress] old(y.pos) < len(y.expr) ==> y.pos > old(y.pos)
+//@ func (y *ifFeatureEval) pop() bool
+//@   mode int
+//@   property C14
+//@   requires y != nil
+//@   assigns y.stack, y.lastErr
+//@   ensures old(len(y.stack)) == 0 ==> y.lastErr != nil && !result
+//@   ensures backing(y.stack) == old(backing(y.stack))
+//@ func (y *ifFeatureEval) push(b bool)
+//@   mode int
+//@   property C14
+//@   requires y != nil
+//@   assigns y.stack, elems(y.stack)
+//@   ensures len(y.stack) == old(len(y.stack)) + 1
+//@   ensures backing(y.stack) == old(backing(y.stack)) || fresh(y.stack)
+//@ func (y *ifFeatureEval) eval(greedy bool)
+//@   mode int
+//@   property C14
+//@   requires wfEval(y)
+//@   assigns y.pos, y.stack, y.lastErr, elems(y.stack)
+//@   decreases len(y.expr) - y.pos
+//@   loop 1 invariant wfEval(y) && y.pos >= old(y.pos) && (backing(y.stack) == old(backing(y.stack)) || fresh(y.stack))
+//@   loop 1 decreases len(y.expr) - y.pos
+//@   ensures wfEval(y) && y.pos >= old(y.pos) && (backing(y.stack) == old(backing(y.stack)) || fresh(y.stack))
+//@ func (y *IfFeature) Evaluate(enabled map[string]*Feature) (bool, error)
+//@   mode int
+//@   property C14
+//@   requires y != nil
+//@   assigns nothing
